@@ -6,8 +6,10 @@ import (
 	"crypto/sha256"
 	"encoding/json"
 	"fmt"
+	"runtime"
 	"sync"
 	"sync/atomic"
+	"time"
 	"unsafe"
 
 	"verif/mc/core"
@@ -35,6 +37,8 @@ func (o pop) String() string {
 		return fmt.Sprintf("h%d.set(%s)", o.H, [...]string{"first", "at-len", "last"}[o.A])
 	case "reslice":
 		return fmt.Sprintf("h%d=h%d.Slice(0,%d)", o.H, o.H, o.A)
+	case "gc":
+		return "runtime.GC()"
 	}
 	return fmt.Sprintf("h%d.%s", o.H, o.K)
 }
@@ -55,16 +59,18 @@ type pbuf struct {
 }
 
 type pworld struct {
-	cs    c10Case
-	t     int
-	ctl   *poolctl.Seq
-	pool  dyn.Pool
-	out   []*pbuf
-	free  map[unsafe.Pointer]*pbuf // shadows of pooled items (state when they were put)
-	order []unsafe.Pointer         // released buffers in the order of their puts
+	cs   c10Case
+	t    int
+	ctl  *poolctl.Seq
+	pool dyn.Pool
+	out  []*pbuf
+	// keyed by address only (uintptr): the model must not keep buffer headers alive, or finalizers a
+	// changed tree attaches to them could never run; pooled and checked-out buffers are alive anyway
+	free  map[uintptr]*pbuf // shadows of pooled items (state when they were put)
+	order []uintptr         // released buffers in the order of their puts
 	tok   int64
 	answ  []int
-	seenP map[unsafe.Pointer]bool
+	seenP map[unsafe.Pointer]bool // conformance runs on the real pool only
 }
 
 func (w *pworld) next() int64 {
@@ -77,7 +83,7 @@ func (w *pworld) next() int64 {
 }
 
 func newPWorld(cs c10Case) (*pworld, func()) {
-	w := &pworld{cs: cs, t: typeByName(cs.T), tok: 1, free: map[unsafe.Pointer]*pbuf{}, seenP: map[unsafe.Pointer]bool{}}
+	w := &pworld{cs: cs, t: typeByName(cs.T), tok: 1, free: map[uintptr]*pbuf{}, seenP: map[unsafe.Pointer]bool{}}
 	unbind := func() {}
 	if cs.Real {
 		vs.Bind(vs.Passthrough)
@@ -137,19 +143,21 @@ func (w *pworld) apply(o pop) (fs []F) {
 			return
 		}
 		ptr := g.Ptr()
-		if _, ok := w.free[ptr]; ok {
-			delete(w.free, ptr)
+		if _, ok := w.free[uintptr(ptr)]; ok {
+			delete(w.free, uintptr(ptr))
 			for i, q := range w.order {
-				if q == ptr {
-					w.order = append(append([]unsafe.Pointer{}, w.order[:i]...), w.order[i+1:]...)
+				if q == uintptr(ptr) {
+					w.order = append(append([]uintptr{}, w.order[:i]...), w.order[i+1:]...)
 					break
 				}
 			}
-		} else if w.seenP[ptr] && cs.Real {
+		} else if cs.Real && w.seenP[ptr] {
 			fail("conformance", "the real sync.Pool returned a buffer that is neither pooled nor new")
 			return
 		}
-		w.seenP[ptr] = true
+		if cs.Real {
+			w.seenP[ptr] = true
+		}
 		for i, p := range w.out {
 			if p.b.Ptr() == ptr {
 				fail("same-handle", "Get returned the very buffer that is still checked out as h%d", i)
@@ -237,6 +245,13 @@ func (w *pworld) apply(o pop) (fs []F) {
 	case "reslice":
 		p.b = p.b.Slice(0, o.A)
 		p.n = C * o.A
+	case "gc":
+		// the header the pool handed out may be garbage by now (only a window of it is kept): let the
+		// collector and any finalizers run; the window must not change
+		runtime.GC()
+		runtime.GC()
+		time.Sleep(300 * time.Microsecond)
+		runtime.Gosched()
 	case "put":
 		accept := len(p.cells) == C*K
 		pn, msg := dyn.Try(func() { w.pool.Put(p.b) })
@@ -245,8 +260,8 @@ func (w *pworld) apply(o pop) (fs []F) {
 				fail("put-panic", "Put of a buffer with the pool's capacity panicked: %s", msg)
 				return
 			}
-			w.free[p.b.Ptr()] = p
-			w.order = append(w.order, p.b.Ptr())
+			w.free[uintptr(p.b.Ptr())] = p
+			w.order = append(w.order, uintptr(p.b.Ptr()))
 			w.out = append(append([]*pbuf{}, w.out[:o.H]...), w.out[o.H+1:]...)
 			return
 		}
@@ -527,6 +542,12 @@ func init() {
 						}
 					case "resliceK":
 						if p.n != len(p.cells) && !step(pop{K: "reslice", H: h, A: len(p.cells) / cs.C}) {
+							return
+						}
+					}
+					if variant >= 4 && round%31 == 3 && len(p.cells) > 0 {
+						// keep only a window of the pooled buffer, fill it, collect garbage
+						if !step(pop{K: "stampall", H: h}) || !step(pop{K: "reslice", H: h, A: len(p.cells) / cs.C}) || !step(pop{K: "gc", H: h}) {
 							return
 						}
 					}
